@@ -95,8 +95,13 @@ STEPS = StepBudget()
 # --------------------------------------------------------------------------
 # member trace: wrap Renamed._parse/_build/_sizeof
 # --------------------------------------------------------------------------
+class TraceOverflow(BaseException):
+    """more member events in one call than the trace is willing to hold (a repetition of hundreds of thousands of named members)"""
+
+
 class MemberTrace:
     """Records (op, path, name, tell_before, tell_after | exc) for every named member."""
+    MAX_EVENTS = 400000
 
     def __init__(self):
         self.events = []
@@ -125,6 +130,8 @@ class MemberTrace:
                 return op0(self, stream, context, path)
             t0 = _tell(stream)
             idx = len(trace.events)
+            if idx >= trace.MAX_EVENTS:
+                raise TraceOverflow("%d member events in one call" % idx)
             trace.tick += 1
             trace.events.append(["parse", path, self.name, t0, None, None, id(stream), trace.clock() if trace.clock else None, None, self, trace.tick, None])
             try:
@@ -144,6 +151,8 @@ class MemberTrace:
                 return ob0(self, obj, stream, context, path)
             t0 = _tell(stream)
             idx = len(trace.events)
+            if idx >= trace.MAX_EVENTS:
+                raise TraceOverflow("%d member events in one call" % idx)
             trace.events.append(["build", path, self.name, t0, None, None, id(stream)])
             try:
                 r = ob0(self, obj, stream, context, path)
